@@ -91,3 +91,14 @@ package client
 //@   loop 2 step [old-file-untouched] fsData(c.knownHostsPath) == prev(fsData(c.knownHostsPath))
 //@   at-call os.Rename [tmp-replaces-known-hosts] arg0 == c.knownHostsPath + ".tmp" && arg1 == c.knownHostsPath
 //@   at-call os.Rename [old-entries-all-read] !scanner.failed && fsData(c.knownHostsPath) == scanner.consumed
+
+// ---- which host key callback a client gets (C17) ------------------------------------------------
+// The accept-everything callback is handed out only to a caller that brought
+// its own auth methods (the health check); everybody else gets the known-hosts
+// callback, created with the caller's trust-all flag.
+//@ func InitSSHAuthMethods
+//@   at-call NewSimpleCallback [only-for-caller-supplied-auth-methods] len(old(sshAuthMethods)) > 0
+//@   at-call initKnownHostsAuthMethods [flag-passed-on] arg0 == old(trustAllHosts)
+//@ func initKnownHostsAuthMethods
+//@   at-call NewKnownHostsCallback [with-the-callers-trust-flag] arg1 == old(trustAllHosts)
+//@   never-calls NewSimpleCallback
